@@ -11,9 +11,11 @@ VERIF = os.path.dirname(HERE)
 
 def reexec_if_needed():
     # one fixed hash seed: dict/set iteration order of str keys must not depend on the interpreter instance
-    if os.environ.get("PYTHONHASHSEED") is None:
+    if os.environ.get("PYTHONHASHSEED") is None or os.environ.get("MALLOC_PERTURB_") is None:
         env = dict(os.environ)
-        env["PYTHONHASHSEED"] = "0"
+        env.setdefault("PYTHONHASHSEED", "0")
+        # deterministic junk in freed / fresh heap blocks (glibc), see core.fanout_isolated
+        env.setdefault("MALLOC_PERTURB_", "165")
         env.setdefault("OMP_NUM_THREADS", "1")
         env.setdefault("OPENBLAS_NUM_THREADS", "1")
         env.setdefault("MPLBACKEND", "Agg")
